@@ -102,8 +102,6 @@ func (p *Parser) separateRow(row string) (int, string, error) {
 				err = ErrIncorrectFormat
 				continue
 			}
-		} else {
-			p.sep = ""
 		}
 
 		spaceCount := strings.Count(before, p.sep)
